@@ -69,6 +69,22 @@ Fixpoint hosts_lists_ok (fuel : nat) (l : list bytes) : bool :=
     end
   end.
 
+(* parameter names of the domains of every Hosts matcher in a specification *)
+Fixpoint spec_host_params_fuel (fuel : nat) (l : list bytes) : list bytes :=
+  match fuel with
+  | O => []
+  | S f =>
+    match l with
+    | [] => []
+    | k :: rest =>
+      if beqb k (bs "hosts") then
+        let '(ds, rest') := take_list rest in
+        flat_map (fun d => match tokens (to_lower d) with Some ts => par_names ts | None => [] end) ds ++ spec_host_params_fuel f rest'
+      else spec_host_params_fuel f rest
+    end
+  end.
+Definition spec_host_params (l : list bytes) : list bytes := spec_host_params_fuel (S (length l)) l.
+
 Definition spec_supported (l : list bytes) : bool :=
   hosts_lists_ok (S (length l)) l &&
   Nat.leb (length (filter (fun k => beqb k (bs "and") || beqb k (bs "or")) l)) 6.
@@ -307,8 +323,16 @@ Definition oracle_gr_all (s s' : sgr) (o : line) (r : list bytes) : list bytes :
        | Some (Some (name, q', mps)) =>
          check (beqb rname name) "C13:not-the-first-accepting-router" ++
          check (beqb path (m_path q')) "C13:router-saw-a-different-path" ++
-         check (forallb (fun kv => match ctx_get ps (fst kv) with Some v => beqb v (snd kv) | None => false end) mps)
-               "C13:matcher-parameters-missing" ++
+         (* known finding F28: a Hosts member whose lookup backtracks over (or rejects after) a domain parameter deletes
+            an earlier member's parameter of the same name; any other loss is a violation *)
+         (let lost := filter (fun kv => negb (match ctx_get ps (fst kv) with Some v => beqb v (snd kv) | None => false end)) mps in
+          match lost with
+          | [] => []
+          | _ => if forallb (fun kv => mem (fst kv) (spec_host_params (opt_default [] (alookup name (gspec s)))) &&
+                                        match ctx_get ps (fst kv) with None => true | Some _ => false end) lost
+                 then [bs "known:hosts-lookup-deleted-same-named-parameter"]
+                 else [bs "C13:matcher-parameters-missing"]
+          end) ++
          (* nothing but the accepting matcher's parameters and the route's own captures *)
          (match tokens (nth 7 r []) with
           | Some ts => check (forallb (fun kv => ahas (fst kv) mps || mem (fst kv) (capture_names ts)) ps)
@@ -379,7 +403,8 @@ Definition oracle_gr_all (s s' : sgr) (o : line) (r : list bytes) : list bytes :
   else [].
 
 Definition oracle_gr (s s' : sgr) (o : line) (r : list bytes) : list bytes :=
-  filter (fun c => has_prefix c (gpid s) || beqb (gpid s) (bs "GR")) (oracle_gr_all s s' o r).
+  filter (fun c => has_prefix c (gpid s) || beqb (gpid s) (bs "GR") ||
+                   (has_prefix c (bs "known:hosts-lookup") && beqb (gpid s) (bs "C13"))) (oracle_gr_all s s' o r).
 
 Definition absorb_gr (s : sgr) (o : line) (r : list bytes) : sgr :=
   let op := arg 0 o in
